@@ -246,10 +246,17 @@ def r5(ctx):
     ctx.check(k >= 1, "lan:record-at-start:site", "start() stores the clock reading in the state", sb.where(line=sb.line))
 
 
+def r6(ctx):
+    """'unrelated traffic (unsolicited responses, wrong-sequence replies) interleaved at any step' must not complete a step: the
+    acceptance conjuncts of validate_non_read_response are rule C15.R1 (shared code)."""
+    import c15
+    c15.r1(ctx)
+
 RULES = [
     ("C18.R1", "T2/T3", "success only on an empty response with NEED_TIME cleared; every other return reports an error", r1),
     ("C18.R2", "T2", "non-LAN: every stated failure condition blocks the write and reports its namesake error", r2),
     ("C18.R3", "T8", "provenance of the written time on the master (system time, interval, delay, halving)", r3),
     ("C18.R4", "T8/T2", "provenance and guards of the written time on the outstation", r4),
     ("C18.R5", "T8", "LAN: the time written is the clock recorded when the request was sent", r5),
+    ("C18.R6", "T2", "a time-sync step is completed only by the matching reply of the addressed outstation (shared with C15.R1)", r6),
 ]
